@@ -738,7 +738,8 @@ func runCase(e *hx.Env, sh *pk.Shipper, ns tree.NodeStore, c *Case) {
 			}
 			gotC, _ := pk.Materialise(ctx, out.m)
 			if bulk, err := pk.Build(ctx, ns, gotC); err != nil || bulk.HashOf() != out.m.HashOf() {
-				e.Rep.Violate(key+"/canonical-shape", fmt.Sprintf("root hash of the merged map %s != hash of a bulk build of its content", out.m.HashOf()), one)
+				// stable key (no pair kind): one genuine defect class, see design/C14.md
+				e.Rep.Violate("MergeMaps/canonical-shape", fmt.Sprintf("root hash of the merged map %s != hash of a bulk build of its content (the merged tree is not the canonical tree of its contents)", out.m.HashOf()), one)
 				continue
 			}
 			if op.Mode == "C" || op.Mode == "L" {
